@@ -165,4 +165,14 @@ theorem reachable_of_trace {S : Sys σ} (tr : List Nat) {t : σ}
     (h : runTrace S tr S.init = some t) : Reachable S t :=
   reachable_of_runTrace tr Reachable.init h
 
+/-- the state a trace leads to (the initial state if the trace is not a path). -/
+def endOf (S : Sys σ) (tr : List Nat) : σ := (runTrace S tr S.init).getD S.init
+
+theorem reachable_endOf {S : Sys σ} (tr : List Nat) (h : (runTrace S tr S.init).isSome = true) :
+    Reachable S (endOf S tr) := by
+  unfold endOf
+  cases hr : runTrace S tr S.init with
+  | none => rw [hr] at h; cases h
+  | some t => exact reachable_of_trace tr hr
+
 end Kmip.CliLts
